@@ -5,12 +5,16 @@ import BreezyVerif.Lemmas.C39Text
 import BreezyVerif.Lemmas.C39Header
 import BreezyVerif.Lemmas.C39Parse
 import BreezyVerif.Lemmas.C39Wf
+import BreezyVerif.Lemmas.C39Bytes
+import BreezyVerif.Lemmas.C39Group3
 /-!
-C39 — theorems.  For all texts `a b` (lists of byte-string lines), all grouped
-opcode lists `gs` satisfying the decidable predicate `validGroups a b gs`
-(checked at run time on what the real matcher returned, for every context
-size), all hunk lists, all old texts.  No bound on sizes other than the i32
-range of the header numbers.
+C39 — theorems.  For all texts `a b` (lists of byte-string lines, or byte strings
+split after every newline), all grouped opcode lists `gs` satisfying the
+decidable predicate `validGroups a b gs` — in particular (`grouped_validGroups`)
+difflib's grouping, for every context size, of any matching-block list
+satisfying `validBlocks a b ks`, which is what is checked at run time on the
+real matcher's output — all hunk lists, all old texts.  No bound on sizes other
+than the i32 range of the header numbers.
 -/
 namespace BreezyVerif.C39
 
@@ -75,13 +79,43 @@ theorem no_newline_marker_roundtrip (ls : List Bytes) (hc : ∀ l ∈ ls, carria
     handleNl (ls.flatMap writeLine) = .ok ls :=
   handleNl_written ls hc
 
-/-- **partial**: insert/remove statistics balance the text lengths and the hunk
-count is the group count.  Missing for the full statement ("equal the changed
-line counts"): that the grouped opcodes contain exactly the lines outside the
-matcher's matching blocks — a property of the external matcher's
-`get_grouped_opcodes`, which is checked per case at run time (`grouped`, and the
-oracle compares `stats_values()` with the matching blocks directly). -/
-theorem stats_balance_partial (a b : List Line) (gs : List Group) (hv : validGroups a b gs = true)
+/-- difflib's `get_grouped_opcodes(n)` applied to `get_opcodes()` of valid matching blocks
+(strictly increasing, in range, equal content; adjacent blocks allowed) is a valid
+grouped-opcode list, for every context size `n` (0 included) -/
+theorem grouped_validGroups (a b : List Line) (ks : List Block) (n : Nat) (hv : validBlocks a b ks = true) :
+    validGroups a b (grouped n (opcodes a.length b.length ks)) = true :=
+  grouped_valid a b ks n hv
+
+/-- hence the whole pipeline from the matcher's blocks: the diff exists, applies back, and
+parses to the hunks it was written from -/
+theorem diff_of_blocks_applies (a b : List Line) (ks : List Block) (n : Nat) (hv : validBlocks a b ks = true)
+    (hla : a.length < 2147483647) (hlb : b.length < 2147483647) :
+    ∃ hs, mkHunks a b (grouped n (opcodes a.length b.length ks)) = some hs ∧
+      (hs ≠ [] → iterPatched a (diffLines hs) = .ok b) ∧ (hs = [] → a = b) :=
+  diff_text_applies a b _ (grouped_valid a b ks n hv) hla hlb
+
+/-- `Patch.stats_values()` of breezy's diff equals the changed line counts: the inserted
+lines are exactly the lines of `b` outside the matching blocks, the removed lines exactly
+the lines of `a` outside them, and there is one hunk per opcode group -/
+theorem stats_eq_counts (a b : List Line) (ks : List Block) (n : Nat) (hv : validBlocks a b ks = true)
+    (hs : List Hunk) (hm : mkHunks a b (grouped n (opcodes a.length b.length ks)) = some hs) :
+    (stats hs).1 + (ks.map (·.n)).sum = b.length ∧ (stats hs).2.1 + (ks.map (·.n)).sum = a.length ∧
+    (stats hs).2.2 = (grouped n (opcodes a.length b.length ks)).length := by
+  rw [stats_eq]
+  exact grouped_counts a b ks n hv hs hm
+
+/-- the parsed diff has the same statistics (parsing gives back the same hunks) -/
+theorem stats_of_parsed_diff (a b : List Line) (ks : List Block) (n : Nat) (hv : validBlocks a b ks = true)
+    (hla : a.length < 2147483647) (hlb : b.length < 2147483647)
+    (hs : List Hunk) (hm : mkHunks a b (grouped n (opcodes a.length b.length ks)) = some hs) (hne : hs ≠ []) :
+    ∃ hs', parsePatch (diffLines hs) = .ok hs' ∧
+      (stats hs').1 + (ks.map (·.n)).sum = b.length ∧ (stats hs').2.1 + (ks.map (·.n)).sum = a.length :=
+  ⟨hs, parse_diff_text a b _ (grouped_valid a b ks n hv) hla hlb hs hm hne,
+    (stats_eq_counts a b ks n hv hs hm).1, (stats_eq_counts a b ks n hv hs hm).2.1⟩
+
+/-- for arbitrary valid grouped opcodes (any matcher): insert/remove statistics balance
+the text lengths and the hunk count is the group count -/
+theorem stats_balance (a b : List Line) (gs : List Group) (hv : validGroups a b gs = true)
     (hla : a.length < 2147483647) (hlb : b.length < 2147483647)
     (hs : List Hunk) (hm : mkHunks a b gs = some hs) :
     (stats hs).1 + a.length = (stats hs).2.1 + b.length ∧ (stats hs).2.2 = gs.length := by
@@ -104,15 +138,70 @@ theorem apply_ok_iff (ln : Nat) (rest : List Line) (h : Hunk) (hs : List Hunk) (
   applyFrom_ok_iff ln rest h hs out
 
 /-- a text that does not carry the hunk's context/removed lines at the hunk's
-position is never patched: the result is an error (conflict or exhausted) -/
+position is never patched: the result is `PatchConflict`, and its line number is
+the position reached when the hunk starts (the end of the text if it ends before
+that) plus the number of old-side lines that still matched — i.e. the first old
+line that differs or is missing -/
 theorem apply_conflict_on_mismatch (ln : Nat) (rest : List Line) (h : Hunk) (hs : List Hunk)
     (hmis : ¬ (oldSide h.lines <+: rest.drop (h.origPos - ln))) :
-    ∀ out, applyFrom ln rest (h :: hs) ≠ .ok out := by
-  intro out hok
-  obtain ⟨pre, rest', out', h1, h2, _, _⟩ := (applyFrom_ok_iff ln rest h hs out).mp hok
-  apply hmis
-  rw [h2, ← h1, List.append_assoc, List.drop_left]
-  exact List.prefix_append _ _
+    applyFrom ln rest (h :: hs) =
+      .error (.conflict (ln + min (h.origPos - ln) rest.length +
+        lcp (oldSide h.lines) (rest.drop (h.origPos - ln)))) :=
+  applyFrom_conflict ln rest h hs hmis
+
+/-- at top level, for a hunk that starts inside the text: the reported line is the
+1-based number of the first old line that differs from the hunk's old side -/
+theorem apply_conflict_first_differing_line (orig : List Line) (h : Hunk) (hs : List Hunk)
+    (hpos : 1 ≤ h.origPos) (hin : h.origPos - 1 ≤ orig.length)
+    (hmis : ¬ (oldSide h.lines <+: orig.drop (h.origPos - 1))) :
+    applyHunks orig (h :: hs) =
+      .error (.conflict (h.origPos + lcp (oldSide h.lines) (orig.drop (h.origPos - 1)))) := by
+  unfold applyHunks
+  rw [applyFrom_conflict 1 orig h hs hmis, Nat.min_eq_left hin]
+  congr 3; omega
+
+/-- the applier is total and every failure is a `PatchConflict` whose line number names
+an existing old line or the line just after the end of the old text -/
+theorem apply_ok_or_conflict (orig : List Line) (hs : List Hunk) :
+    (∃ out, applyHunks orig hs = .ok out) ∨
+    (∃ k, applyHunks orig hs = .error (.conflict k) ∧ 1 ≤ k ∧ k ≤ orig.length + 1) := by
+  cases h : applyHunks orig hs with
+  | ok out => exact Or.inl ⟨out, rfl⟩
+  | error e =>
+    cases e with
+    | conflict k =>
+      have := applyFrom_conflict_range 1 orig hs k h
+      exact Or.inr ⟨k, rfl, by omega, by omega⟩
+
+/-! ## byte level: texts and diffs as byte strings -/
+
+/-- a diff written to a byte stream and read back line by line is the same list of
+lines, provided the text lines contain no newline except as their last byte -/
+theorem diff_bytes_roundtrip (hs : List Hunk) (hc : ∀ h ∈ hs, ∀ l ∈ h.lines, cleanLine (content l) = true) :
+    splitNL (diffLines hs).flatten = diffLines hs :=
+  splitNL_diffLines hs hc
+
+/-- end to end on byte strings: split both files after every newline, diff, write the
+diff to a byte stream, read it back line by line, patch the old file's lines: the
+concatenated output is the new file -/
+theorem diff_bytes_applies (A B : Bytes) (gs : List Group) (hv : validGroups (splitNL A) (splitNL B) gs = true)
+    (hla : (splitNL A).length < 2147483647) (hlb : (splitNL B).length < 2147483647) :
+    ∃ hs, mkHunks (splitNL A) (splitNL B) gs = some hs ∧
+      (hs ≠ [] → ∃ out, iterPatched (splitNL A) (splitNL (diffLines hs).flatten) = .ok out ∧ out.flatten = B) ∧
+      (hs = [] → A = B) := by
+  obtain ⟨hs, hm, h1, h2⟩ := diff_text_applies (splitNL A) (splitNL B) gs hv hla hlb
+  refine ⟨hs, hm, ?_, ?_⟩
+  · intro hne
+    refine ⟨splitNL B, ?_, flatten_splitNL B⟩
+    rw [splitNL_diffLines hs ?_]
+    · exact h1 hne
+    · intro h hh l hl
+      rcases mkHunks_mem _ _ gs hs hm h hh l hl with hm' | hm'
+      · exact (splitNL_clean A _ hm').2
+      · exact (splitNL_clean B _ hm').2
+  · intro he
+    have := h2 he
+    rw [← flatten_splitNL A, ← flatten_splitNL B, this]
 
 /-! non-vacuity -/
 
@@ -124,5 +213,16 @@ example : validGroups [] [[120]] [[⟨.insert, 0, 0, 0, 1⟩]] = true := by deci
 example : wfHunk ⟨1, 2, 1, 2, none, [.ctx [97, 10], .rem [98, 10], .ins [99]]⟩ = true := by decide
 example : carriable [32, 97] = true ∧ carriable noNl = false := by decide
 example : ¬ (oldSide [HLine.ctx [97, 10]] <+: ([[120, 10]] : List Line).drop (1 - 1)) := by decide
+/-- matching blocks of `a b` / `a c`, and what the grouping makes of them -/
+example : validBlocks [[97, 10], [98, 10]] [[97, 10], [99, 10]] [⟨0, 0, 1⟩] = true := by decide
+example : grouped 3 (opcodes 2 2 [⟨0, 0, 1⟩]) = [[⟨.equal, 0, 1, 0, 1⟩, ⟨.replace, 1, 2, 1, 2⟩]] := by decide
+/-- second hunk's context is present one line late: conflict at line 2 (the first differing line) -/
+example : applyHunks [[120, 10], [97, 10], [98, 10]] [⟨2, 1, 2, 1, none, [.ctx [98, 10]]⟩] = .error (.conflict 2) := by
+  decide
+/-- text ends inside / before the hunk -/
+example : applyHunks [[97, 10]] [⟨1, 2, 1, 2, none, [.ctx [97, 10], .ctx [98, 10]]⟩] = .error (.conflict 2) := by decide
+example : applyHunks [[97, 10]] [⟨5, 1, 5, 1, none, [.ctx [98, 10]]⟩] = .error (.conflict 2) := by decide
+example : splitNL [97, 10, 10, 98] = [[97, 10], [10], [98]] := by decide
+example : cleanLine [97, 10] = true ∧ cleanLine [97, 10, 98] = false := by decide
 
 end BreezyVerif.C39
